@@ -89,6 +89,37 @@ def r11_close(ctx):
         else:
             ctx.require(not sends, 'R11.2', f'close({label}).no-reset', w, f'{len(sends)} messages sent on close without autoreset',
                         construct=cons + '::no-reset')
+    # every way of letting go of the port is that close: the with block left normally or by an exception of any kind (an I/O
+    # error of something else in the block included), and the finaliser - 32 reset messages, then one release, autoreset as set
+    from ..absint import AExcValue
+    ways = [('__exit__', 'the with block ends', [None, None, None])]
+    for en in ('OSError', 'FileNotFoundError', 'BrokenPipeError', 'ValueError', 'KeyboardInterrupt', 'EOFError'):
+        ways.append(('__exit__', f'the with block is left by {en}', [('excclass', en), AExcValue(en, {}), Opaque('traceback')]))
+    ways.append(('__del__', 'the port is dropped', []))
+    for meth, wlabel, margs in ways:
+        for clsname in ('BaseOutput', 'BaseIOPort'):
+            holder = {}
+
+            def thunk_w():
+                port = pm.new_port(ai, ctx, clsname, [], {'autoreset': True})
+                holder['port'] = port
+                log_event('mark', 'first')
+                return pm.call(ai, ctx, port, meth, list(margs))
+            outs = ai.explore(thunk_w)
+            cons = f'{closef.qname}::autoreset-on-exit'
+            oc = one(ctx, 'R11.2', f'{clsname}: {wlabel}', w, outs, cons)
+            if oc is None:
+                continue
+            log = oc.log
+            i1 = next(i for i, e in enumerate(log) if e == ('mark', 'first'))
+            closes = pm.device_events(log[i1:], '_close')
+            sends = pm.device_events(log[i1:], '_send')
+            ok = oc.kind == 'return' and len(closes) == 1 and len(sends) == 32 and all(log.index(s_) < log.index(closes[0]) for s_ in sends) \
+                and holder['port'].attrs.get('autoreset') is True and (meth != '__exit__' or not oc.value)
+            ctx.require(ok, 'R11.2', f'{clsname}: {wlabel}', w,
+                        f'when {wlabel} an autoreset port sends {len(sends)} reset messages and is released {len(closes)} times '
+                        f'(autoreset afterwards: {holder["port"].attrs.get("autoreset")!r}, outcome {oc.kind} {oc.value if oc.kind == "return" else oc.exc!r}); '
+                        'expected 32 messages, then one release, the exception not swallowed', construct=cons)
     # reset failing with OSError must not prevent the release
     ai2 = pm.make_interp(ctx)
 
@@ -789,4 +820,12 @@ def r11_reset_via_send(ctx):
     ctx.floor('R11.8', n, 3)
 
 
-RULES = [('R11.11', r11_second_port), ('R11.10', r11_multi_child_fails), ('R11.9', r11_multi_oneshot), ('R11.8', r11_reset_via_send), ('R11-broken-pipe', r11_broken_pipe), ('R11-socket', r11_socket), ('R11-server', r11_server), ('R11-close', r11_close), ('R11-send', r11_send), ('R11-receive', r11_receive), ('R11-multi', r11_multi)]
+def r11_abandoned(ctx):
+    """Hands out every message the port had already taken in - also to the caller after the one that stopped consuming a
+    generator half way (iter_pending, iteration, multi_receive with and without yield_ports): what was not taken stays in the
+    port's queue (shared with C10 R10.9)."""
+    from . import c10
+    ctx.borrow(c10.r10_abandoned, 'R11.12')
+
+
+RULES = [('R11.12', r11_abandoned), ('R11.11', r11_second_port), ('R11.10', r11_multi_child_fails), ('R11.9', r11_multi_oneshot), ('R11.8', r11_reset_via_send), ('R11-broken-pipe', r11_broken_pipe), ('R11-socket', r11_socket), ('R11-server', r11_server), ('R11-close', r11_close), ('R11-send', r11_send), ('R11-receive', r11_receive), ('R11-multi', r11_multi)]
